@@ -86,10 +86,21 @@ func checkFileFaults(c *mon.Case, f *fileFixture) {
 	all, _ := w.DFS(f.Root, nil)
 	blocks := all[1:]
 	exact := hasSizeInfo(f.Name)
+	exactOrig := exact
 	st := f.St.Clone()
 	st.Logging = true
-	ls := st.LinkSystem(true)
-	raw, err := loadRaw(ls, f.Root)
+	lsCfgSalt++
+	cfg := lsCfgSalt % 3
+	ls := st.LinkSystemCfg(true, cfg == 1, cfg == 2)
+	c.Count(fmt.Sprintf("linksystem_cfg_%d", cfg), 1)
+	if cfg == 2 {
+		// with Reify installed as NodeReifier every child comes back as a reified bytes node and is
+		// read as one unit (AsBytes of the whole sub-tree): the prefix delivered before an error is
+		// then coarser; correctness of the prefix and surfacing of the error are still demanded
+		exact = false
+	}
+	_ = exactOrig
+	raw, err := loadRaw(st.LinkSystem(false), f.Root)
 	if err != nil {
 		c.Harness("load: %v", err)
 		return
